@@ -326,3 +326,24 @@ package stdlib
 //@ func init$modi at "return a % b, true"
 //@   ensures [zero] b == 0 ==> !result1
 //@   ensures [remainder] b != 0 ==> result1 && result0 == trem(a, b)
+
+// ---- C18: bucket names and their layouts ----
+// a bucket name is any prefix of nanos / seconds / minutes / hours / days / months / years (first
+// match in that order, case-insensitive); its layout is the canonical date-time layout
+// "2006-01-02 15:04:05.999999999" cut after that field, so buckettime truncates and never
+// re-orders or drops a leading field.
+//@ pred ispart(s, w) := len(s) <= len(w) && (forall k in [0, len(s)) :: s[k] == w[k])
+//@ func isPartialString
+//@   pure
+//@   ensures result == ispart(s, word)
+//@   loop 1 invariant 0 <= i && i <= len(s) && len(s) <= len(word) && (forall k in [0, i) :: s[k] == word[k])
+//@ func timeBucketToFormat
+//@   pure
+//@   ensures [nanos] ispart(str_lower(name), "nanos") ==> result == "2006-01-02 15:04:05.999999999"
+//@   ensures [seconds] !ispart(str_lower(name), "nanos") && ispart(str_lower(name), "seconds") ==> result == "2006-01-02 15:04:05"
+//@   ensures [minutes] !ispart(str_lower(name), "nanos") && !ispart(str_lower(name), "seconds") && ispart(str_lower(name), "minutes") ==> result == "2006-01-02 15:04"
+//@   ensures [hours] !ispart(str_lower(name), "nanos") && !ispart(str_lower(name), "seconds") && !ispart(str_lower(name), "minutes") && ispart(str_lower(name), "hours") ==> result == "2006-01-02 15"
+//@   ensures [days] !ispart(str_lower(name), "nanos") && !ispart(str_lower(name), "seconds") && !ispart(str_lower(name), "minutes") && !ispart(str_lower(name), "hours") && ispart(str_lower(name), "days") ==> result == "2006-01-02"
+//@   ensures [months] !ispart(str_lower(name), "nanos") && !ispart(str_lower(name), "seconds") && !ispart(str_lower(name), "minutes") && !ispart(str_lower(name), "hours") && !ispart(str_lower(name), "days") && ispart(str_lower(name), "months") ==> result == "2006-01"
+//@   ensures [years] !ispart(str_lower(name), "nanos") && !ispart(str_lower(name), "seconds") && !ispart(str_lower(name), "minutes") && !ispart(str_lower(name), "hours") && !ispart(str_lower(name), "days") && !ispart(str_lower(name), "months") && ispart(str_lower(name), "years") ==> result == "2006"
+//@   ensures [unknown] (result == "") == (!ispart(str_lower(name), "nanos") && !ispart(str_lower(name), "seconds") && !ispart(str_lower(name), "minutes") && !ispart(str_lower(name), "hours") && !ispart(str_lower(name), "days") && !ispart(str_lower(name), "months") && !ispart(str_lower(name), "years"))
